@@ -76,9 +76,9 @@ def cases(tier, seed):
         full = G.slice_of(cfgs_full(), seed, 96)
         table += [(spec, cfg) for spec in specs[:4] for cfg in full]
     else:
-        # the full configuration product on 5 specs, all pairs of options on the others (bounds the thorough tier to about 15 minutes)
-        table = [(spec, cfg) for spec in specs[:3] + specs[-5:-3] for cfg in cfgs_full()]
-        table += [(spec, cfg) for spec in specs[3:-5] + specs[-3:] for cfg in cfgs_pairs()]
+        # the full configuration product on 3 specs, all pairs of options on the others (bounds the thorough tier to about 15 minutes)
+        table = [(spec, cfg) for spec in specs[:2] + specs[-5:-4] for cfg in cfgs_full()]
+        table += [(spec, cfg) for spec in specs[2:-5] + specs[-4:] for cfg in cfgs_pairs()]
     for spec, cfg in table:
         sc = G.scalings_of(spec, (0, 1, 3, 4, 5))[idx % 5] if tier == "quick" else G.scalings_of(spec, (0, 1, 3, 4, 5))[idx % 5]
         idx += 1
